@@ -503,7 +503,7 @@ def next_psuedo_matches(state: TokenizerState) -> TokenInfo | None:
         elif token in ")]}":
             if state.in_braces() and state.at_parenlev():
                 state.pop_mode((state.lnum, end))
-            state.parenlev -= 1
+            state.parenlev = max(0, state.parenlev - 1)  # a stray closer closes nothing: the next line is a new line
         elif token in (":", ":=") and state.in_braces() and state.at_parenlev():
             if token == ":=":  # at the top level of a replacement field ':=' is ':' + a spec starting with '='
                 token, end = ":", start + 1
